@@ -14,3 +14,11 @@ add("C04","exploration",
     "Held on every scenario produced: sweep-line bound over the mock's per-session working intervals, quiescent admin/mocks comparison, capacity probe with pool_size simultaneous transactions, client usability after pool errors; with injected server faults (close mid-reply, listener down).",
     "Trusted: mock busy-interval bookkeeping; only sessions carrying client work are counted against pool_size; schedules are sampled.",
     "runtime monitoring: interval-overlap oracle on mock log + admin console at quiescence + capacity probe", "DESIGN.md 5 C04")
+add("C09","exploration",
+    "Held on every login attempt produced (thousands quick, ~190k thorough incl. TLS): AuthenticationOk only for configured (database,user) pairs with the correct MD5 answer to this connection's salt, for cleartext and auth_query secrets, trust pool and admin database; nothing sent by a never-authenticated client reached a mock; logins during drain refused except admin.",
+    "Trusted: harness MD5 (RFC 1321 vectors in unit tests); mock serves the pg_shadow row for auth_query; SCRAM towards clients does not exist in pgcat.",
+    "runtime monitoring: wire-level login outcomes vs reference MD5 + mock traffic log", "DESIGN.md 5 C09")
+add("C16","exploration",
+    "Held on every PAUSE/RESUME cycle produced (about 1000 cycles and 9000 held requests per quick run): no request sent after a PAUSE reply reached a server before RESUME was issued, every held client completed after RESUME, no request failed; jitter hook inside wait_paused widens the lost-wake-up window and evidence counts how often a client entered wait_paused while a RESUME was in flight.",
+    "Trusted: CLOCK_MONOTONIC shared by harness threads and mock threads; schedules sampled, not enumerated.",
+    "runtime monitoring: happens-before oracle over client send / mock arrival / admin reply timestamps", "DESIGN.md 5 C16")
